@@ -32,6 +32,8 @@ pub struct Profile {
     pub p_alias_shadow: f64,
     pub p_cross: f64,
     pub p_outer_kinds: f64,
+    pub p_modulo: f64,
+    pub p_unsupported_agg: f64,
     /// Probability of an aggregation over an aggregation grouped by the inner aggregate
     /// (`SELECT t.c, count(*) FROM (SELECT count(*) AS c FROM base GROUP BY key) AS t GROUP BY t.c`).
     pub p_nested_group: f64,
@@ -59,16 +61,18 @@ impl Profile {
             p_alias_shadow: 0.0,
             p_cross: 0.0,
             p_outer_kinds: 0.0,
+            p_modulo: 0.03,
+            p_unsupported_agg: 0.0,
             p_nested_group: 0.0,
             p_multi_dp: 0.0,
         };
         match prop {
             "C03" => Profile { p_cross: 0.04, p_outer_kinds: 0.05, p_multi_dp: 0.06, p_shared_cte: 0.05, p_nested_group: 0.03, ..base },
             "C01" => Profile { p_cross: 0.06, p_outer_kinds: 0.06, p_shared_cte: 0.03, p_nested_group: 0.05, ..base },
-            "C09" => Profile { p_alias_shadow: 0.4, public_keys_only: true, benign_data: true, p_distinct: 0.12, p_row_privacy: 0.15, p_grouped: 0.65, ..base },
+            "C09" => Profile { p_modulo: 0.12, p_alias_shadow: 0.4, public_keys_only: true, benign_data: true, p_distinct: 0.12, p_row_privacy: 0.15, p_grouped: 0.65, ..base },
             "C04" => Profile { p_nested_group: 0.08, p_nested: 0.0, need_private_key: true, p_grouped: 1.0, p_outer: 0.0, p_distinct: 0.05, ..base },
             "C16" => Profile { benign_data: true, full_catalogue: true, p_public_table: 1.0, p_synthetic: 0.3, ..base },
-            "C02" => Profile { p_cross: 0.04, p_outer_kinds: 0.05, p_multi_dp: 0.04, p_nested_group: 0.03, p_shared_cte: 0.08, p_plain: 0.25, p_synthetic: 0.4, p_public_table: 0.5, p_outer: 0.2, ..base },
+            "C02" => Profile { p_unsupported_agg: 0.08, p_cross: 0.04, p_outer_kinds: 0.05, p_multi_dp: 0.04, p_nested_group: 0.03, p_shared_cte: 0.08, p_plain: 0.25, p_synthetic: 0.4, p_public_table: 0.5, p_outer: 0.2, ..base },
             _ => base,
         }
     }
@@ -234,6 +238,19 @@ pub fn generate(seed: u64, run: u64, prop: &str) -> Generated {
         rows: vec![],
     };
     items.cols.extend(pick_cols(&mut rc, items_pool(), profile.benign_data, profile.full_catalogue));
+    // declared integer value sets with negative members (own stream): sign-sensitive typing
+    let mut rnv = Rng::stream(seed, run, "neg_values");
+    if rnv.chance(0.15) {
+        for t in [&mut orders, &mut items] {
+            for c in t.cols.iter_mut() {
+                if let ColType::IntValues(v) = &c.ty {
+                    if v.len() >= 3 {
+                        c.ty = ColType::IntValues(vec![-3, -1, 2, 4]);
+                    }
+                }
+            }
+        }
+    }
     let with_public = rc.chance(profile.p_public_table);
     let regions = TableSpec {
         name: "regions".into(),
@@ -1047,6 +1064,57 @@ pub fn generate(seed: u64, run: u64, prop: &str) -> Generated {
         }
     }
     let mut query = QuerySpec { from, where_, keys, aggs, having, outer: if cte.is_some() { None } else { outer }, plain: None, cte, raw_sql: None, holders_override: None };
+    // `%` over a column with a declared value set, as key or inside an aggregate (own stream)
+    let mut rmo = Rng::stream(seed, run, "modulo");
+    if rmo.chance(profile.p_modulo) && query.cte.is_none() {
+        let int_valued = |e: &str| -> Option<Vec<i64>> {
+            cols.iter().find(|(q, c)| q == e && !c.optional).and_then(|(_, c)| match &c.ty {
+                ColType::IntValues(v) => Some(v.clone()),
+                _ => None,
+            })
+        };
+        let mut done = false;
+        for k in query.keys.iter_mut() {
+            if let Some(vals) = int_valued(&k.expr) {
+                let mut set: Vec<i64> = vals.iter().map(|v| v % 2).collect();
+                set.sort();
+                set.dedup();
+                k.expr = format!("{} % 2", k.expr);
+                k.public_set = Some(set.into_iter().map(Cell::Int).collect());
+                k.ambiguous = true;
+                done = true;
+                break;
+            }
+        }
+        for a in query.aggs.iter_mut() {
+            if matches!(a.f, AggFn::Sum | AggFn::Avg) && !a.distinct {
+                if int_valued(&a.arg).is_some() {
+                    a.arg = format!("{} % 2", a.arg);
+                    a.scale = 1.0;
+                    done = true;
+                    break;
+                }
+            }
+        }
+        if done {
+            tags.push("modulo".into());
+        }
+    }
+    // an aggregate the DP compiler does not support (MAX / MIN): over the DP aggregation, or alone
+    // (then only synthetic data can answer it)
+    let mut rua = Rng::stream(seed, run, "unsupported_agg");
+    if rua.chance(profile.p_unsupported_agg) && query.cte.is_none() {
+        let f = *rua.pick(&["max", "min"]);
+        if rua.chance(0.5) && !query.aggs.is_empty() {
+            let a = query.aggs[rua.usize(query.aggs.len())].alias.clone();
+            query.outer = Some(vec![(format!("{}({})", f, a), "m".to_string())]);
+            tags.push("unsupported_agg_over_dp".into());
+        } else if let Some((q, _)) = numeric.first() {
+            query.plain = Some(vec![(format!("{}({})", f, q), "m".to_string())]);
+            query.outer = None;
+            tags.push("unsupported_agg_alone".into());
+        }
+    }
     // a SELECT alias that shadows the input column GROUP BY names (own stream): SQL groups on the
     // input column, so `SELECT f(c) AS c ... GROUP BY c` with a non-injective f has repeated keys
     let mut rs_ = Rng::stream(seed, run, "alias_shadow");
